@@ -117,3 +117,102 @@ PROPS["C08"] = {
         "thorough": {"grows_checked": 200000},
     },
 }
+
+PROPS["C09"] = {
+    "level": "exploration",
+    "rule": "case = one seeded sibling-set history over two storages: a per-case pool of 6-14 random names (1-40 UTF-16 units, lengths "
+            "30/31/32 emphasised, ASCII / Latin-1 / Greek / Cyrillic / exceptional upper-casing / caseless BMP >= U+E000 / supplementary "
+            "characters, forbidden characters injected) inserted in ascending, descending, middle-first or random order; creations, "
+            "removals, lookups under case variants and re-spelled paths, listings, root-escaping paths; five monitors (validation with "
+            "no write event, case-insensitivity, findability sweep, order via order.rs + on-disk BST via refparse, path normaliser). "
+            "non-trivial = >= 10 steps; distinct = FNV-64 of steps",
+    "assumptions": COMMON_ASSUMPTIONS + [
+        "alphabets are restricted to characters whose simple upper-casing is stable across Unicode versions; cased supplementary characters appear only in one case (the format folds per code unit, the library per scalar; the property does not pin that)",
+        "the names '.' and '..' are path syntax and are not used as object names",
+    ],
+    "checked_share": 0.6,
+    "quick": {"budget_s": 18},
+    "thorough": {"budget_s": 240},
+    "floors": {
+        "quick": {"evaluations": 20000, "invalid_name_no_effect_checked": 50000, "verbatim_checked": 100000, "name_units.31": 10000, "name_units.32": 10000,
+                  "lookup.variant.present": 5000, "findability_sweeps": 50000, "order_checks": 20000, "escaping_paths": 20000, "create_name.has_supplementary.valid": 20000},
+        "thorough": {"evaluations": 100000},
+    },
+}
+
+PROPS["C10"] = {
+    "level": "exploration",
+    "rule": "case = one seeded history with 50% of the calls aimed at a refusal class (missing parent, parent is a stream, wrong type, "
+            "existing name incl. case variant, non-empty storage, root, escaping path, invalid name, multi-step create_storage_all / "
+            "remove_storage_all, out-of-range seek with a dirty buffer), long-lived dirty handles mixed in; for every call the model "
+            "predicts as refused and that is refused: zero write events on the backing store, bytes identical, handle len/position "
+            "unchanged, and all later dumps equal a model that never saw the call. non-trivial = >= 3 refusals checked; distinct = FNV-64 of steps",
+    "assumptions": COMMON_ASSUMPTIONS,
+    "checked_share": 0.6,
+    "quick": {"budget_s": 18},
+    "thorough": {"budget_s": 240},
+    "floors": {
+        "quick": {"refusals_checked": 300000, "refusals_multi_step": 30000, "refusals_with_dirty_handle_present": 20000,
+                  "refusal.seek | refuse:out_of_range+dirty_buffer": 2000, "refusal.create_storage_all | refuse:invalid_name": 10000,
+                  "refusal.create_storage | refuse:parent_is_stream": 5000, "refusal.remove_storage | refuse:not_empty": 5000},
+        "thorough": {"refusals_checked": 3000000},
+    },
+}
+
+PROPS["C15"] = {
+    "level": "exploration",
+    "rule": "case = random prefix history (fill levels steered to whole-sector multiples of mini sectors, sometimes emptied) followed "
+            "by 4-6 repetitions of one of 7 net-zero cycle templates (create-write-remove, nested storages + remove_storage_all, "
+            "grow-then-shrink, overwrite with same content, several streams created then removed in same/reverse order, truncate-and-"
+            "rewrite, storage + state bits), sizes below and above 4096; the model certifies the cycle is net-zero, then the length of "
+            "the backing store after repetition r >= 2 must equal that after repetition 1. non-trivial = cycle certified net-zero and "
+            "measured; distinct = FNV-64 of steps",
+    "assumptions": COMMON_ASSUMPTIONS,
+    "checked_share": 0.5,
+    "quick": {"budget_s": 15},
+    "thorough": {"budget_s": 240},
+    "floors": {
+        "quick": {"cycles_checked": 30000, "cycles.template0.mini": 1500, "cycles.template0.regular": 500, "cycles.template1.mini": 1500,
+                  "cycles.template2.mini": 1500, "cycles.template4.regular": 500, "prefix.emptied": 5000, "prefix.fill_steered": 10000},
+        "thorough": {"cycles_checked": 300000},
+    },
+}
+
+PROPS["C17"] = {
+    "level": "exploration",
+    "rule": "case = one seeded history with 45% metadata calls (random / nil / all-ones CLSIDs, random state words, times from 12 "
+            "classes: epoch +-{0,1,99,100,101 ns}, sub-100ns fractions, 1601 exactly +-, year 1000, now, 9999, the tick limit +-, year 1e5, "
+            "random) on 5-80 entries interleaved with structural changes; checks: entry/listing/walk immediately (model with independent "
+            "i128 tick arithmetic), reopen in both modes, raw bytes through the independent parser (GUID field layout, tick value), "
+            "clock window of new storages and touch. non-trivial = >= 3 metadata calls; distinct = FNV-64 of steps",
+    "assumptions": COMMON_ASSUMPTIONS + ["set_modified_time / touch on the root changes the root's time (code behaviour; the doc comment of touch says otherwise)",
+                                         "a clock window sample is skipped if the wall clock stepped backwards between the two readings"],
+    "checked_share": 0.6,
+    "quick": {"budget_s": 15},
+    "thorough": {"budget_s": 240},
+    "floors": {
+        "quick": {"live_checks": 200000, "reopen_checks": 50000, "raw_byte_checks": 50000, "clock_window_checks": 10000,
+                  "time_class.before_1601_saturates": 2000, "time_class.beyond_tick_limit_saturates": 2000, "time_class.off_grid_before_1970": 5000,
+                  "time_class.off_grid_after_1970": 5000, "stream_touch_noop_checked": 300},
+        "thorough": {"live_checks": 2000000},
+    },
+}
+
+PROPS["C18"] = {
+    "level": "exploration",
+    "rule": "case = one explicit history (generated once against the model, exact-count calls only, storage times pinned through the "
+            "API, dirty handles flushed before queries) replayed under: A in-memory, A' the same again, C in-memory with 35% shortened "
+            "and 10% spuriously Interrupted underlying reads/writes, B a real std::fs::File via cfb::create / create_with_version and "
+            "re-read via cfb::open / open_rw (1 in 6 histories), D another max_buffer_size, E the other format version; per-call "
+            "normalised outcomes and final dump must be identical across all, final bytes identical across A, A', B, C. "
+            "non-trivial = >= 10 steps; distinct = FNV-64 of steps",
+    "assumptions": COMMON_ASSUMPTIONS + ["the reported 'length' of storages/root (physical mini-stream size) is not compared across buffer sizes / versions"],
+    "checked_share": 0.5,
+    "quick": {"budget_s": 18},
+    "thorough": {"budget_s": 240},
+    "floors": {
+        "quick": {"histories": 10000, "configurations_compared": 40000, "real_files_written": 1000, "underlying_calls_shortened": 10000000,
+                  "underlying_calls_interrupted": 3000000},
+        "thorough": {"histories": 100000},
+    },
+}
